@@ -25,7 +25,7 @@ CHECKS = {
    note="The 'all parseable texts' quantifier is only sampled through the grammar (byte mutation would be input fuzzing); the recorded normal-mode sign-leading-statement finding is confined to a probe.",
    tech="deterministic simulation: seeded histories of format/evaluate events in one process plus a second OS process, checking history- and process-independence and the fixpoint of the real printer"),
  "C04": dict(cat="exploration", ref="5.2",
-   text="Seeded search over REPL input sequences (definitions, leaf redefinitions, repeated and verbatim re-submitted calls, closures, outer reads/writes, prints, rand/time, functions reading a sometimes-deleted global under catch(), recursion reading a global in every frame, cancellations inside printing calls and inside a callee whose error the caller catch()es) executed on the real interpreter with the cache on and, through hook H1, off, under identical rand/time streams; per input the output bytes, value, outcome class and rand/time call counts must be identical, and final globals must agree. Fixed probe histories cover -0.0 (also nested in container arguments), variadic keys, save()/load() and sleep() inside functions (scratch directory), a memoized closure factory; recorded design-level staleness findings are confined to fixed probes (KNOWN-FINDING).",
+   text="Seeded search over REPL input sequences (definitions, leaf redefinitions, repeated and verbatim re-submitted calls, closures, outer reads/writes, prints, rand/time, functions reading a sometimes-deleted global under catch(), recursion reading a global in every frame, cancellations inside printing calls and inside a callee whose error the caller catch()es) executed on the real interpreter with the cache on and, through hook H1, off, under identical rand/time streams; per input the output bytes, value, outcome class and rand/time call counts must be identical, and final globals must agree. Fixed probe histories cover -0.0 (also nested in container arguments), variadic keys, save()/load() and sleep() inside functions (scratch directory), a memoized closure factory, functions reading or recreating an image of the image registry; recorded design-level staleness findings are confined to fixed probes (KNOWN-FINDING).",
    note="log() is not generated (a diagnostic channel written for actual executions only, pinned by grol's TestEvalMemoPrint); sleep() call counts are compared like rand/time call counts; in-place mutation of a large container returned by a cached call is attributed to C06 and kept out of this generator.",
    tech="deterministic simulation: seeded session histories with virtual rand/time streams and injected cancellations, differential between cache enabled/disabled (hook) of the same real code"),
  "C05": dict(cat="exploration", ref="5.3",
@@ -42,15 +42,15 @@ CHECKS = {
    note="Templates are single quoted integer expressions; the printer may regroup repeated associative operators (pinned by grol's tests), so the reprint oracle compares evaluation, not tree identity.",
    tech="deterministic simulation: seeded multi-input sessions with injected failing inputs, refinement of macro expansion against an executable textual-substitution model"),
  "C14": dict(cat="exploration", ref="5.9",
-   text="Seeded worlds in a scratch directory: globals of 19 generator-known value kinds (int extremes, every float class, strings over all bytes, nested containers with keys of every type, named functions and lambdas from the workload grammar) are bound, saved (save(), SaveGlobals, AutoSave), the interpreter restarted (fresh state), loaded (load() whole-file or AutoLoad line by line), observed as typed canonical trees, functions re-called on fixed arguments, and saved again, for up to 3 cycles under MaxValueLen in {0,10,100,4000}; faults: state file truncated at a random byte, one byte flipped or a garbage line inserted between save and load, and a binding above bufio.Scanner's 64 KiB limit; fixed probes: auto-save after a write made only by a function, alias of a named function, comment-only lambda. Oracles: equal value and type, same function behaviour, one line per binding = reported count, byte-identical re-save, over-long values absent, damaged file never panics AutoLoad and every intact line is restored.",
+   text="Seeded worlds in a scratch directory: globals of 19 generator-known value kinds (int extremes, every float class, strings over all bytes, nested containers with keys of every type, named functions and lambdas from the workload grammar) are bound, saved (save(), SaveGlobals, AutoSave), the interpreter restarted (fresh state), loaded (load() whole-file or AutoLoad line by line), observed as typed canonical trees, functions re-called on fixed arguments, and saved again, for up to 3 cycles under MaxValueLen in {0,10,100,4000}; faults: state file truncated at a random byte, one byte flipped or a garbage line inserted between save and load, and bindings above 64 KiB, 1 MiB and 2 MiB (line buffers a scanner may default to); fixed probes: auto-save after a write made only by a function, alias of a named function, comment-only lambda. Oracles: equal value and type, same function behaviour, one line per binding = reported count, byte-identical re-save, over-long values absent, damaged file never panics AutoLoad and every intact line is restored.",
    note="A restart is a fresh eval.State in the same OS process. Recorded findings (integral floats, -0, MinInt64, closures, two printer regroupings) are matched by value kind / fixed probe; generated function bodies avoid the two recorded printer regroupings.",
    tech="deterministic simulation: seeded save/restart/load histories on a real scratch file system with injected torn/flipped state files, checked against generator-known values"),
  "C15": dict(cat="exploration", ref="5.10",
-   text="The simulator acts as the transport of source text and decides fragmentation: seeded scripts (multi-line statements, comments, macros before use, statements starting with a string literal, parameterless lambdas inside open brackets) are (a) parsed in file and line mode and compared by a harness-side structural dump, (b) cut at every token boundary reported by the real lexer (plus positions inside strings/block comments): every prefix ending inside an open ( [ { string/comment or after a binary operator must yield a continuation request without errors, and line-by-line feeding through the REPL's prev+line accumulation must give the same statements, (c) delivered to a persistent session as one input and as every split into consecutive chunks (all 2^(n-1) for n<=7), optionally with failing inputs between chunks: same program output and final globals.",
+   text="The simulator acts as the transport of source text and decides fragmentation: seeded scripts (multi-line statements, comments, macros before use, statements starting with a string literal, multi-line raw strings holding punctuation, parameterless lambdas inside open brackets; run 0 is the fixed probe of the recorded finding 'a macro redefined between two uses inside one script') are (a) parsed in file and line mode and compared by a harness-side structural dump, (b) cut at every token boundary reported by the real lexer (plus positions inside strings/block comments): every prefix ending inside an open ( [ { string/comment or after a binary operator must yield a continuation request without errors, and line-by-line feeding through the REPL's prev+line accumulation must give the same statements, (c) delivered to a persistent session as one input and as every split into consecutive chunks (all 2^(n-1) for n<=7), optionally with failing inputs between chunks: same program output and final globals.",
    note="Chunks are aligned with generator-known top-level statements, each terminated by ';' because grol continues a statement across a newline before ++/--; repl.Interactive's terminal loop is re-implemented (6 lines) around the real parser.",
    tech="deterministic simulation: the simulator fragments the input stream (all cuts / all splits per script) and injects failing inputs; differential against whole-file delivery on the same real code"),
  "C17": dict(cat="exploration", ref="5.11",
-   text="One worker process per IO configuration (restricted, empty-only, load/save disabled; unrestricted as positive control). Histories interleave save/load/image.save/exec/run attempts with hostile names (path separators, parent references, NUL, space, ~, lone non-ASCII bytes and valid multi-byte letters, embedded/double .gr, absolute paths, empty) and ordinary inputs inside a scratch tree with decoy files carrying unique marker bindings; as environment fault the file an accepted name maps to (or ./grol.png) is pre-created as a directory so the request fails after acceptance. After every event the whole tree incl. parent and sibling directories is snapshotted (path, size, sha256, mode): writes only to ./<ident>.gr (./.gr in empty-only) and ./grol.png, decoys byte-identical, rejected names error and change nothing, no forbidden marker ever becomes visible, exec/run unknown, and the decision for a name is position independent. The control configuration shows the monitor does see escapes.",
+   text="One worker process per IO configuration (restricted, empty-only, load/save disabled; unrestricted as positive control). Histories interleave save/load/image.save/exec/run attempts with hostile names (path separators, parent references, NUL, space, ~, lone non-ASCII bytes and valid multi-byte letters, embedded/double .gr, absolute paths, empty; acceptable names that exist only next to the script) and ordinary inputs, with the session's script path (State.CurrentFile: none, <stdin>, a script in the parent, a sibling or a sub directory) as a further per-run configuration, inside a scratch tree with decoy files carrying unique marker bindings; as environment fault the file an accepted name maps to (or ./grol.png) is pre-created as a directory so the request fails after acceptance. After every event the whole tree incl. parent and sibling directories is snapshotted (path, size, sha256, mode): writes only to ./<ident>.gr (./.gr in empty-only) and ./grol.png, decoys byte-identical, rejected names error and change nothing, no forbidden marker ever becomes visible, exec/run unknown, and the decision for a name is position independent. The control configuration shows the monitor does see escapes.",
    note="Sampling biased to hostile shapes, not exhaustive to length 6 (that would be bounded enumeration). Reads are detected through marker bindings, not syscall tracing.",
    tech="deterministic simulation: seeded request histories against a real scratch file system, file-system snapshot invariant evaluated after every event, one process per frozen configuration"),
  "C18": dict(cat="fault_enumeration", ref="5.12",
@@ -58,7 +58,7 @@ CHECKS = {
    note="Crash = process death (page cache survives); power loss / fsync ordering is out of scope as the property speaks of process death. The unwritable-directory fault is skipped when running as root.",
    tech="deterministic simulation with crash-point enumeration: worker processes killed at hook-defined points of the save path, kernel-injected write failures, on-disk state compared with the two legal versions"),
  "C19": dict(cat="exploration", ref="5.13",
-   text="Seeded attack histories: constants of every value type incl. arrays/maps on both sides of the size thresholds are bound, then hit by random sequences of 34 kinds of mutation attempts (assignment forms, ++/--, index/dot assignment, element deletion, loop variable incl. loops starting at the constant's own value and the ninth nested loop, function-local constants, parameter name, nested functions and loops, self-append, catch-wrapped, alias, mutating callee, cancelled slow assignment, numerically equal value of the other type also nested in containers, loop bodies reading the constant) with explicit del+rebind interleaved; two real sessions (registers on/off) run in lock-step and after every attempt every bound constant is re-observed in both; outcome classes and printed output must agree between the modes. A monitor mode re-observes every upper-case name of general generated sessions after every input. Recorded alias-based findings (rooted in C06) are matched narrowly and the search continues past them.",
+   text="Seeded attack histories: constants of every value type incl. arrays/maps on both sides of the size thresholds are bound, then hit by random sequences of 34 kinds of mutation attempts (assignment forms, ++/--, index/dot assignment, element deletion, loop variable incl. loops starting at the constant's own value and the ninth nested loop, function-local constants (also attacked later, from the top level, by closures that escaped the function), parameter name, nested functions and loops, self-append, catch-wrapped, alias, mutating callee, cancelled slow assignment, numerically equal value of the other type also nested in containers, loop bodies reading the constant) with explicit del+rebind interleaved; two real sessions (registers on/off) run in lock-step and after every attempt every bound constant is re-observed in both; outcome classes and printed output must agree between the modes. A monitor mode re-observes every upper-case name of general generated sessions after every input. Recorded alias-based findings (rooted in C06) are matched narrowly and the search continues past them.",
    note="An attempt may fail or be a no-op; re-binding an equal value is allowed by the language. Attempts on a name that is not currently bound are skipped.",
    tech="deterministic simulation: seeded attack histories with injected cancellation, invariant (constant unchanged) checked after every step on both register configurations"),
  "C20": dict(cat="exploration", ref="5.14",
